@@ -25,12 +25,15 @@ SomeExactModern   == \E c \in CaseSet : Req(c) \in Mutual(c) /\ Req(c) \in Moder
 SomeExactLegacy   == \A v \in Legacy : \E c \in CaseSet : c.req = v /\ v \in Mutual(c)
 SomeFallback      == \A t \in Transports : \E c \in CaseSet : c.tr = t /\ ModernRequested(c) /\ ~ModernAvailable(c)
 SomeNoMutual      == \E c \in CaseSet : Mutual(c) = {}
+SomeSharedServer  == /\ \E c \in CaseSet : c.tr = "stateful" /\ c.prior = "stateless" /\ ModernRequested(c)
+                     /\ \E c \in CaseSet : c.tr = "stateless" /\ c.prior = "stateful" /\ Req(c) \in Modern \cap Mutual(c)
+                     /\ \E c \in CaseSet : c.tr = "statefulnosid" /\ ModernRequested(c) /\ ~ModernAvailable(c)
 \* on the SDK's own transports (no wrapper) the design satisfies the property
 UnwrappedDesignOK == \A c \in CaseSet : ~c.wrap => Holds(c, Expected(c))
 
 SetSeq(S) == SetToSeq(S)
 CaseJson(c) == [req |-> c.req, tr |-> c.tr, json |-> c.json, store |-> c.store, wrap |-> c.wrap,
-                adv |-> SetSeq(c.adv), disc |-> c.disc]
+                adv |-> SetSeq(c.adv), disc |-> c.disc, prior |-> c.prior]
 LeadJson(c) == [c |-> CaseJson(c), exp |-> Expected(c), failed |-> SetSeq(FailedClauses(c, Expected(c))),
                 trclass |-> TrClass(c), via |-> Via(Expected(c))]
 Export == /\ ndJsonSerialize("cases.ndjson", SetSeq({CaseJson(c) : c \in CaseSet}))
@@ -38,7 +41,7 @@ Export == /\ ndJsonSerialize("cases.ndjson", SetSeq({CaseJson(c) : c \in CaseSet
 
 ASSUME WellFormed
 ASSUME SomeModernSession /\ SomeRenegotiated /\ SomeTwoThenInit /\ SomeExactModern /\ SomeExactLegacy
-ASSUME SomeFallback /\ SomeNoMutual
+ASSUME SomeFallback /\ SomeNoMutual /\ SomeSharedServer
 ASSUME PrintT(ToJson([cases |-> Cardinality(CaseSet), leads |-> Cardinality(Leads),
                       unwrappedDesignOK |-> UnwrappedDesignOK,
                       leadClasses |-> SetSeq({<<TrClass(c), Via(Expected(c))>> : c \in Leads})]))
